@@ -126,7 +126,7 @@ Act(a)    == {a[h] : h \in DOMAIN a}
 
 \* c hash slots are within one hash slot of the ideal share H/n.
 WithinOne(c, n) == (c - 1) * n <= H /\ H <= (c + 1) * n
-Balanced(a) == \A s \in Act(a) : WithinOne(Cnt(a, s), Cardinality(Act(a)))
+Balanced(a) == LET act == Act(a) n == Cardinality(act) IN \A s \in act : WithinOne(Cnt(a, s), n)
 
 \* The slots that exist once the plan has been carried out.
 SlotsAfter(kind, subj, a) ==
@@ -152,12 +152,13 @@ CntAfter(a, p, s) ==
 \* Every hash slot at most once, only away from its current owner, to a slot that
 \* exists after the operation.
 MovesOnce(kind, subj, a, p) ==
+  LET tgt == SlotsAfter(kind, subj, a) IN
   /\ Cardinality(PlanHs(p)) = Len(p)
   /\ \A i \in DOMAIN p :
         /\ p[i].h \in DOMAIN a
         /\ p[i].from = a[p[i].h]
         /\ p[i].to # p[i].from
-        /\ p[i].to \in SlotsAfter(kind, subj, a)
+        /\ p[i].to \in tgt
 
 \* A donor is never taken below its (integer) ideal share, a receiver never
 \* lifted above it.  The slot being removed is the one donor that is emptied.
@@ -304,8 +305,9 @@ C20_PlanLiteral ==
 IsApplyEv == ev'.a = "ApplyPlan"
 C20_ApplyMovesExactly ==
   [][IsApplyEv =>
+       LET hs == PlanHs(ev'.plan) IN
        \A h \in HSlots :
-         IF h \in PlanHs(ev'.plan) THEN assign'[h] # assign[h] ELSE assign'[h] = assign[h]]_vars
+         IF h \in hs THEN assign'[h] # assign[h] ELSE assign'[h] = assign[h]]_vars
 C20_ApplySubject ==
   [][IsApplyEv =>
        LET n == Cardinality(SlotsAfter(ev'.kind, ev'.subj, assign)) IN
